@@ -452,6 +452,7 @@ func (p *parser) InstantiateGenericFunction(genericFunc *ast.FuncDecl, genericTy
 		errorHandler:          errorCollector.GetHandler(),
 		module:                genericFunc.Mod,
 		genericModule:         genericModule,
+		predefinedModules:     p.predefinedModules,
 		aliases:               context.Aliases,
 		currentFunction:       &decl,
 		isCurrentFunctionBool: ddptypes.Equal(decl.ReturnType, ddptypes.WAHRHEITSWERT),
